@@ -726,62 +726,63 @@ func c01PureBuilders(p *Prog, r *Report, rule string) {
 // AckRequest element.
 func c01ResultUnconditional(p *Prog, ib *inbound, r *Report, rule string) {
 	n := 0
-	for _, fn := range p.RepoFns("spine") {
-		if !isSenderFn(ib, fn) || fn.Blocks == nil {
-			continue
+	seen := map[*ssa.Function]bool{}
+	var mentionsAck func(v ssa.Value, d int) bool
+	mentionsAck = func(v ssa.Value, d int) bool {
+		if d > 5 || v == nil {
+			return false
 		}
-		// a builder of result headers: stores the constant classifier "result"
-		isResult := false
-		for _, b := range fn.Blocks {
-			for _, ins := range b.Instrs {
-				if st, ok := ins.(*ssa.Store); ok {
-					if fa, ok := st.Addr.(*ssa.FieldAddr); ok && fieldOfAddr(fa) != nil && fieldOfAddr(fa).Name() == "CmdClassifier" && isNamed(fa.X.Type(), "model", "HeaderType") {
-						for _, s := range p.Sources(st.Val, false) {
-							if k, isK := s.Val.(*ssa.Const); isK {
-								if cs, isS := constString(k); isS && cs == "result" {
-									isResult = true
-								}
-							}
-						}
-					}
+		if strings.Contains(Path(v), ".AckRequest") {
+			return true
+		}
+		switch x := v.(type) {
+		case *ssa.BinOp:
+			return mentionsAck(x.X, d+1) || mentionsAck(x.Y, d+1)
+		case *ssa.UnOp:
+			return mentionsAck(x.X, d+1)
+		case *ssa.Phi:
+			for _, e := range x.Edges {
+				if mentionsAck(e, d+1) {
+					return true
 				}
 			}
 		}
-		if !isResult {
-			continue
-		}
-		n++
-		var bad []string
-		for _, b := range fn.Blocks {
-			if ifi, ok := b.Instrs[len(b.Instrs)-1].(*ssa.If); ok {
-				var walk func(v ssa.Value, d int) bool
-				walk = func(v ssa.Value, d int) bool {
-					if d > 5 || v == nil {
-						return false
-					}
-					if strings.Contains(Path(v), ".AckRequest") {
-						return true
-					}
-					switch x := v.(type) {
-					case *ssa.BinOp:
-						return walk(x.X, d+1) || walk(x.Y, d+1)
-					case *ssa.UnOp:
-						return walk(x.X, d+1)
-					case *ssa.Phi:
-						for _, e := range x.Edges {
-							if walk(e, d+1) {
-								return true
-							}
-						}
-					}
-					return false
+		return false
+	}
+	// the result builders: the sender's implementations of ResultError / ResultSuccess with everything they call
+	// inside the sender (the shared body, extracted header builders)
+	for _, m := range []string{"ResultError", "ResultSuccess"} {
+		for _, root := range p.ImplsOf(ib.sender, m) {
+			var visit func(fn *ssa.Function, d int)
+			visit = func(fn *ssa.Function, d int) {
+				if seen[fn] || d > 3 || fn.Blocks == nil || !isSenderFnOrHelper(p, ib, fn) {
+					return
 				}
-				if walk(ifi.Cond, 0) {
-					bad = append(bad, p.InstrPos(ifi))
+				seen[fn] = true
+				n++
+				var bad []string
+				for _, b := range fn.Blocks {
+					if ifi, ok := b.Instrs[len(b.Instrs)-1].(*ssa.If); ok && mentionsAck(ifi.Cond, 0) {
+						bad = append(bad, p.InstrPos(ifi))
+					}
 				}
+				r.Check(rule, FnName(fn)+"|not-conditional-on-ack", len(bad) == 0, p.Pos(fn.Pos()), fmt.Sprintf("conditions on the request's ackRequest in the result builder: %v", bad))
+				forEachCallOwn(fn, func(site ssa.CallInstruction) {
+					if c := site.Common().StaticCallee(); c != nil {
+						visit(c, d+1)
+					}
+				})
 			}
+			visit(root, 0)
 		}
-		r.Check(rule, FnName(fn)+"|not-conditional-on-ack", len(bad) == 0, p.Pos(fn.Pos()), fmt.Sprintf("conditions on the request's ackRequest in the result builder: %v", bad))
 	}
 	r.Floor(rule, "result builders", n, 1)
+}
+
+// isSenderFnOrHelper: a method of the sender, or an unexported function of package spine (an extracted helper).
+func isSenderFnOrHelper(p *Prog, ib *inbound, fn *ssa.Function) bool {
+	if isSenderFn(ib, fn) {
+		return true
+	}
+	return p.IsRepoFn(fn) && fnPkgPath(fn) == repoMod+"/spine" && fn.Object() != nil && !fn.Object().Exported() && fn.Signature.Recv() == nil
 }
